@@ -227,6 +227,16 @@ pub fn run(r: &mut Runner) {
         let d = u.below(5);
         Case { v: gen_native(u, d) }
     }, check);
+    // long collections exported one after the other (allocations of the same size come and go)
+    r.random("long-lists-and-maps-one-after-the-other", 40, n / 4, |u: &mut Chooser| {
+        let len = 8 + u.below(17);
+        if u.chance(1, 4) {
+            Case { v: V::Map((0..len).map(|i| (V::Int(i as i64), V::Int(u.range(-9, 9) as i64))).collect()) }
+        } else {
+            let kind = u.below(3);
+            Case { v: V::List((0..len).map(|_| match kind { 0 => V::Int(u.range(-99, 99) as i64), 1 => V::Str(gen_string(u)), _ => gen_native(u, 1) }).collect()) }
+        }
+    }, check);
     for c in ["excluded-nested-in-collection", "colliding-key-texts", "non-finite-double", "bytes", "timestamp", "duration", "import-round-trip"] {
         r.expect_class(c, 300);
     }
